@@ -219,6 +219,42 @@ def handle (w : W) (line : String) : W × String :=
       | some a => unitOp (.alias a (parseOptStr name) (parseOptStr sym)) | _ => bad
   | ["U", "resolve", text] => unitOp (.resolve text)
   | ["U", "named", name] => unitOp (.named name)
+  | ["N", "pfx", p, name, sym] =>
+      (match parseP p with
+       | some q =>
+         let (t, r) := w.ptab.construct (Pfx.new q.base q.exp) (optStr name) (optStr sym)
+         (syncNames { w with ptab := t }, match r with
+           | .ok i => (match t.objs[i]? with | some o => s!"ok\tp{showPfx o.key}" | none => "BAD")
+           | .error e => s!"ERR\t{e.name}")
+       | none => bad)
+  | ["N", "dim", d, name, sym] =>
+      (match parseD d with
+       | some v =>
+         let (t, r) := w.dtab.construct v (optStr name) (optStr sym)
+         (syncNames { w with dtab := t }, match r with
+           | .ok i => (match t.objs[i]? with | some o => s!"ok\td{showDim o.key}" | none => "BAD")
+           | .error e => s!"ERR\t{e.name}")
+       | none => bad)
+  | ["N", "dderive", d, name, sym] =>
+      (match parseD d with
+       | some v =>
+         (match w.dtab.find v with
+          | none => (w, "ERR\tUnmodelled")
+          | some i =>
+            let (t, r) := w.dtab.derive i name (optStr sym)
+            (syncNames { w with dtab := t }, match r with
+              | .ok _ => s!"ok\td{showDim v}"
+              | .error e => s!"ERR\t{e.name}"))
+       | none => bad)
+  | ["N", "pstate"] =>
+      let named := sortStrings ((w.ptab.objs.filter (fun o => o.name.isSome || o.sym.isSome)).map
+        (fun o => s!"{showPfx o.key}|{o.name.getD "-"}|{o.sym.getD "-"}"))
+      let key (i : Nat) : String := match w.ptab.objs[i]? with | some o => showPfx o.key | none => "?"
+      (w, s!"ok\tobjs={hashStr ("\n".intercalate named)} byName={hashStr ("\n".intercalate (w.ptab.byName.map (fun e => s!"{e.1}={key e.2}")))} bySym={hashStr ("\n".intercalate (w.ptab.bySym.map (fun e => s!"{e.1}={key e.2}")))}")
+  | ["N", "dstate"] =>
+      let named := sortStrings ((w.dtab.objs.filter (fun o => o.name.isSome)).map (fun o => s!"{showDim o.key}|{o.name.getD "-"}"))
+      let key (i : Nat) : String := match w.dtab.objs[i]? with | some o => showDim o.key | none => "?"
+      (w, s!"ok\tobjs={hashStr ("\n".intercalate named)} byName={hashStr ("\n".intercalate (w.dtab.byName.map (fun e => s!"{e.1}={key e.2}")))}")
   | ["X", "collisions"] =>
       (w, "ok\ts\t" ++ ",".intercalate ((collisionList w.st).map (fun c => c.1 ++ "+" ++ c.2)))
   | ["X", "ptree", which, start, text] =>
@@ -246,6 +282,19 @@ where
         |>.map (fun cs => .str (String.ofList cs))
     else if t.startsWith "n:" then ((t.drop 2).toString.toInt?).map .int
     else parseArg w t
+  /-- `Prefix._by_name/_by_symbol` and `Dimension._by_name` as the unit-level state sees them
+      (symbol resolution reads them) are the name tables' registries. -/
+  syncNames (w : W) : W :=
+    let pk (i : Nat) : Pfx := match w.ptab.objs[i]? with | some o => o.key | none => Pfx.identity
+    let dk (i : Nat) : Dim := match w.dtab.objs[i]? with | some o => o.key | none => []
+    { w with cv := { w.cv with st := { w.cv.st with
+        pfxByName := w.ptab.byName.map (fun e => (e.1, pk e.2)),
+        pfxBySym := w.ptab.bySym.map (fun e => (e.1, pk e.2)),
+        dimByName := w.dtab.byName.map (fun e => (e.1, dk e.2)) } } }
+  /-- Python's `sorted` on str: by code point -/
+  sortStrings (l : List String) : List String :=
+    (l.toArray.qsort (fun a b => a.toList.map Char.toNat < b.toList.map Char.toNat)).toList
+  optStr (t : String) : Option String := if t == "-" then none else if t == "=" then some "" else some t
   showTree : Except Exc Tree → String
     | .ok t => "ok\ts\t" ++ t.show
     | .error e => "ERR\t" ++ e.name
@@ -268,6 +317,9 @@ partial def loop (h : IO.FS.Stream) (out : IO.FS.Stream) (w : W) : IO Unit := do
 def main (args : List String) : IO Unit := do
   let asserts := !(args.contains "--no-asserts")
   let w0 : W := World.init Generated.init Generated.ratios Generated.offsets Generated.rootPowerDims Generated.shipped.grammar asserts
+  let w0 : W := { w0 with
+    ptab := NTab.ofRegistries (Generated.prefixes.map (fun p => (p.1, p.2.2.1, p.2.2.2))) Generated.pfxByName Generated.pfxBySym true,
+    dtab := NTab.ofRegistries Generated.dims Generated.dimByName [] false }
   let out ← IO.getStdout
   loop (← IO.getStdin) out w0
   out.flush
